@@ -26,7 +26,12 @@ CTX_C = {'macros': [['m', S('m')], ['d', S('d<>')], ['r', S('r[]')], ['v', S('v'
 # `ArgKind.m0` in the Lean context type)
 CTX_D = {'macros': [['p', S('m', 'm0')], ['q', S('m0')], ['pm', S(['m0', '+'], 'm')], ['z', S()]],
          'envs': [['en', S('m0'), False]], 'specials': [['~', S()], ['!', S('m0')]], 'um': S(), 'ue': [S(), False]}
-CONTEXTS = {'A': CTX_A, 'B': CTX_B, 'C': CTX_C, 'D': CTX_D, 'default': 'default'}
+# \verb-like macros of the legacy verbatim parser WITH leading standard arguments (documented keyword verbatim_argspec):
+# not expressible in the Lean context type, exercised by the oracles only
+CTX_E = {'macros': [['li', ['LVA', '[']], ['mi', ['LVA', '{']], ['lm', ['LVA', '[{']], ['verb', ['LV']], ['z', S()]],
+         'envs': [['en', S('o1'), False]], 'specials': [['~', S()]], 'um': S(), 'ue': [S(), False]}
+CONTEXTS = {'A': CTX_A, 'B': CTX_B, 'C': CTX_C, 'D': CTX_D, 'E': CTX_E, 'default': 'default'}
+ATOMS_E = ['a', ' ', '\n', '{x}', '[o]', '|', '|c|', '!v!', '{', '}', '[', '$', '%c\n', '~', '\\li', '\\mi', '\\lm', '\\verb', '\\z', '+a[1]+', '\\begin{en}', '\\end{en}']
 ATOMS_D = ['a', ' ', '\n', '{', '}', '[', '$', '%c\n', '~', '!', '\\p', '\\q', '\\pm', '\\z', '\\begin{en}', '\\end{en}', '\\', '\\(', '\\)', '\\begin', '\t']
 
 ATOMS_DEFAULT = ['a', ' ', '\n', '{', '}', '[', ']', '$', '%', '~', '\\', '\\(', '\\)', '\\[', '\\]', '\\\\',
@@ -43,6 +48,8 @@ CORE_ATOMS = ['a', ' ', '\n', '{', '}', '[', ']', '$', '%', '\\', '\\(', '\\)', 
 def atoms_for(ctxname):
     if ctxname == 'D':
         return ATOMS_D
+    if ctxname == 'E':
+        return ATOMS_E
     return ATOMS_DEFAULT if ctxname == 'default' else ATOMS_CUSTOM
 
 def soup(rng, atoms, maxlen=10):
